@@ -6,16 +6,21 @@ import (
 )
 
 type wgen struct {
-	r   *core.Rand
-	cfg *Cfg
-	kg  *fsmsim.KeyGen
-	tag uint32
+	r       *core.Rand
+	cfg     *Cfg
+	kg      *fsmsim.KeyGen
+	tag     uint32
+	bigVals bool
 }
 
 func (g *wgen) key() int { return g.r.Intn(len(g.cfg.Keys)) }
 
 func (g *wgen) val() fsmsim.Val {
 	v := g.kg.Val()
+	if g.bigVals && g.r.Chance(0.6) {
+		v.N = []int{40000, 90000, 150000, 270000}[g.r.Intn(4)]
+		return v
+	}
 	if v.N > 300 {
 		v.N = 300
 	}
@@ -81,8 +86,20 @@ func GenC05(r *core.Rand, tier string) core.Schedule {
 		cfg.TOAppliedPermille = uint64(r.Range(0, 40))
 		cfg.TOLostPermille = uint64(r.Range(0, 30))
 	}
+	big := r.Chance(0.12)
+	if big {
+		// values large enough for one Replicate response to be split into several follower proposals
+		// (the worker cuts at 256 KiB), with follower-side proposal faults falling between the parts
+		g.bigVals = true
+		cfg.MaxMsg = 0
+		cfg.BusyPermille, cfg.DropPermille = uint64(r.Range(40, 160)), uint64(r.Range(20, 100))
+		cfg.TOLostPermille, cfg.TOAppliedPermille = uint64(r.Range(0, 60)), uint64(r.Range(0, 60))
+	}
 	var steps []Step
 	n := r.Range(10, 45)
+	if big {
+		n = r.Range(10, 22)
+	}
 	created := cfg.InitialTables
 	startedF := cfg.FollowerFirst
 	for len(steps) < n {
